@@ -843,7 +843,23 @@ class Interp:
             tgt = self.tsub(fr, tstr)[1]
             return z3.fpFPToFP(RNE, v, F64 if tgt == 'f64' else F32)
         if kind == 'FloatToInt':
-            raise Unsupported('FloatToInt cast (saturating semantics not modelled)')
+            # Rust `as`: NaN -> 0, out of range saturates, otherwise truncation toward zero
+            tgt = self.tsub(fr, tstr)[1]
+            if tgt not in INT_BITS:
+                raise Unsupported('FloatToInt cast to ' + str(tgt))
+            tw, sg = INT_BITS[tgt], tgt[0] == 'i'
+            so = v.sort()
+            lo, hi = (-(1 << (tw - 1)), (1 << (tw - 1)) - 1) if sg else (0, (1 << tw) - 1)
+            RTZ = z3.RTZ()
+            t = z3.fpRoundToIntegral(RTZ, v)
+            conv = z3.fpToSBV(RTZ, t, z3.BitVecSort(tw)) if sg else z3.fpToUBV(RTZ, t, z3.BitVecSort(tw))
+            # bounds as exact reals compared through the float's real value would need mixed theories; compare in the float domain
+            # with bounds that are exactly representable (powers of two): t >= 2^(tw-1) (signed) / 2^tw (unsigned) saturates high
+            top = z3.FPVal(float(2 ** (tw - 1) if sg else 2 ** tw), so)
+            bot = z3.FPVal(float(-(2 ** (tw - 1))) if sg else 0.0, so)
+            return z3.If(z3.fpIsNaN(v), z3.BitVecVal(0, tw),
+                         z3.If(z3.fpGEQ(t, top), z3.BitVecVal(hi, tw),
+                               z3.If(z3.fpLT(t, bot), z3.BitVecVal(lo, tw), conv)))
         raise Unsupported('cast kind ' + kind)
 
     def adt(self, fr, st, path, ops):
